@@ -55,6 +55,19 @@ static void roundtrip(const uint8_t* x, size_t n, int c, int lvl, int placement,
         snprintf(key, sizeof key, "%s.roundtrip.%s", CN[c], st != 0 ? "decompress-error" : on != n ? "length" : "bytes");
         mc_fail(key, "n=%zu lvl=%d compressed=%zu status=%d out_n=%zu head=%s", n, lvl, w, st, on, mc_hex(x, n, 24));
     }
+    /* a refused call leaves no trace: the same stream into a destination one byte short and a stream cut by one byte are refused (or at least do not overflow), and the valid
+     * call made right after them on the same thread still returns x (decompression contexts are cached per thread) */
+    if (n > 0 && st == 0) {
+        uint8_t* o2 = mc_arena_tail(&A_out, n - 1); size_t on2 = 0; int s2 = cdecompress(c, cin, w, o2, n - 1, &on2);
+        if (!mc_arena_check(&A_out)) { snprintf(key, sizeof key, "%s.decompress.short-destination.wrote-outside-capacity", CN[c]); mc_fail(key, "n=%zu capacity=%zu", n, n - 1); }
+        if (s2 == 0 && on2 > n - 1) { snprintf(key, sizeof key, "%s.decompress.short-destination.length-exceeds-capacity", CN[c]); mc_fail(key, "n=%zu reported %zu", n, on2); }
+        for (int pass = 0; pass < 2; pass++) {      /* pass 0: right after the short-destination call; pass 1: right after a stream cut by its last byte */
+            if (pass == 1) { if (w < 2) break; uint8_t* c2 = mc_arena_tail(&A_cin, w - 1); memcpy(c2, dst, w - 1); uint8_t* o3 = mc_arena_tail(&A_out, n); size_t on3 = 0; int s3 = cdecompress(c, c2, w - 1, o3, n, &on3);
+                if (s3 == 0 && (on3 != n || memcmp(o3, x, n))) { snprintf(key, sizeof key, "%s.decompress.cut-stream-accepted-with-other-bytes", CN[c]); mc_fail(key, "n=%zu: the stream without its last byte decodes with status OK to %zu bytes that are not x", n, on3); } }
+            cin = mc_arena_tail(&A_cin, w); memcpy(cin, dst, w); out = mc_arena_tail(&A_out, n); memset(out, 0xA5, n); on = (size_t)-1; st = cdecompress(c, cin, w, out, n, &on);
+            if (st != 0 || on != n || memcmp(out, x, n)) { snprintf(key, sizeof key, "%s.decompress.valid-stream-after-a-refused-call", CN[c]); mc_fail(key, "n=%zu lvl=%d: after a call with %s the valid stream gives status %d, %zu bytes", n, lvl, pass ? "a cut stream" : "a short destination", st, on); break; }
+        }
+    }
     if (!caps) return;
     /* destination capacities around the bound: refused, or correct without overflow */
     size_t capv[4] = { 0, 1, b - 1, b + 1 };
